@@ -277,6 +277,13 @@ func gcRun(rt *hookrt.Runtime, sc *gcScenario, rng *rand.Rand) {
 				var err error
 				pan := guard("Publish", func() { err = ps.Publish(fmt.Sprintf("topic-%d", p.Topic), msgs...) })
 				rt.Stamp("api.publish.ret", fmt.Sprint(pi), fmt.Sprint(ci), fmt.Sprint(err == nil && !pan))
+				// the caller recycles its message objects after Publish returned: nothing the Pub/Sub
+				// delivers or replays later may depend on them
+				for j := range msgs {
+					msgs[j].Payload = []byte("recycled-by-the-caller")
+					msgs[j].Metadata.Set("k", "recycled")
+					msgs[j].Metadata.Set("extra", "x")
+				}
 				n := atomic.AddInt32(&pubCallsDone, 1)
 				select {
 				case pubDoneCh <- struct{}{}:
